@@ -68,6 +68,8 @@ func checkC03(r *core.Run) {
 		return
 	}
 	falseRes := an.FailKind{Result: 0, Kind: "false"}
+	// the point additions behind u1*G + u2*Q: equal operands take the doubling branch and leave (shared with C08)
+	c08SpecialCases(r, p, "R-C03-ranges")
 
 	// ---- ECDSA ranges ----
 	ver := p.Func(secp + ".(*Signature).Verify")
